@@ -315,6 +315,16 @@ func (cs *ContractSet) ParseContractText(file, pkgPath, pkgName, text string) {
 				cs.GlobalInvs = append(cs.GlobalInvs, GlobalInv{PkgPath: pkgPath, C: c})
 				cs.Trust = append(cs.Trust, fmt.Sprintf("assumed package-level invariant (%s): %s", pkgPath, rest))
 			}
+		case "immutable":
+			// immutable Struct.field <justification>: the field is never written after construction
+			// (assumed): it keeps its value across calls to code without a contract
+			f := strings.Fields(rest)
+			if len(f) == 0 {
+				cs.errf(file, rl.line, "immutable Struct.field <justification>")
+				continue
+			}
+			immutableKeys["H."+pkgName+"."+f[0]] = true
+			cs.Trust = append(cs.Trust, fmt.Sprintf("field %s.%s assumed not to be written after construction: %s", pkgName, f[0], strings.Join(f[1:], " ")))
 		case "longterm":
 			f := strings.Fields(rest)
 			if len(f) == 0 {
@@ -605,3 +615,6 @@ func (cs *ContractSet) LoadExternSpecs(dir string) {
 		cs.ParseContractText(f, "", "", sb.String())
 	}
 }
+
+// immutableKeys: heap keys of fields declared immutable (they survive a whole-heap havoc)
+var immutableKeys = map[string]bool{}
